@@ -130,13 +130,17 @@ class Recorder:
         kind = fault['kind']
         if kind == 'incumbent':
             # a time-limit stop with an incumbent: PuLP reports Optimal, values are feasible but the
-            # objective is not proven optimal.  Realised by solving the same problem with objective 0.
+            # objective is not proven optimal.
             saved = prob.objective
-            prob.objective = pulp.LpAffineExpression()
+            if saved is None or (not isinstance(saved, pulp.LpVariable) and len(saved) == 0):
+                return orig(prob, solver, **kw)          # nothing to be sub-optimal about
+            # Realised by optimising the opposite objective: a feasible point, in general not optimal.
+            prob.objective = -1 * saved
             try:
                 st = orig(prob, solver, **kw)
             finally:
-                prob.objective = saved
+                # PuLP's own solve leaves an expression here, never the bare variable
+                prob.objective = pulp.LpAffineExpression(saved) if isinstance(saved, pulp.LpVariable) else saved
             # the objective variable (if any) takes whatever feasible value CBC chose
             return st
         code = STATUS_CODE[kind]
